@@ -18,7 +18,7 @@ def dispatch (prop k : String) (i impl : Json) : E Json :=
   | "chain" => handleChain i
   | "validate" => handleValidate prop i impl
   | "trust" => handleTrust i
-  | "algtable" => handleAlgTable i
+  | "algtable" => handleAlgTable i impl
   | "envstate" => handleEnvState i
   | "sign" => handleSign prop i impl
   | "localsigner" => handleLocalSigner i impl
